@@ -1,6 +1,7 @@
 package structure
 
 import (
+	"github.com/pentops/j5/gen/j5/schema/v1/schema_j5pb"
 	"github.com/pentops/j5/gen/j5/source/v1/source_j5pb"
 	"google.golang.org/protobuf/reflect/protoreflect"
 )
@@ -8,4 +9,44 @@ import (
 // VerifBuildService exposes buildService (with buildMethod) to the C16 harness.
 func VerifBuildService(src protoreflect.ServiceDescriptor) (*source_j5pb.Service, error) {
 	return buildService(src)
+}
+
+// HarnessPackageFiling (C15/C16): reflected schemas are filed into the source
+// API under the package (and sub-package) their proto package names — exactly
+// that one, also when one package name is a string prefix of another (foo.v1 /
+// foo.v10) and whatever the order of the package list.
+func HarnessPackageFiling() {
+	names := []string{"foo.v1", "foo.v10", "bar.v1"}
+	order := [][]int{{0, 1, 2}, {0, 2, 1}, {1, 0, 2}, {1, 2, 0}, {2, 0, 1}, {2, 1, 0}}[ndChoice("listOrder", 6)]
+	bb := &packageSet{wantPackages: map[string]bool{}}
+	for _, i := range order {
+		bb.wantPackages[names[i]] = true
+		bb.packages = append(bb.packages, &source_j5pb.Package{Name: names[i], Schemas: map[string]*schema_j5pb.RootSchema{}})
+	}
+	targets := []string{"foo.v1", "foo.v10", "bar.v1", "foo.v1.service", "foo.v10.service", "new.v1"}
+	target := targets[ndChoice("target", len(targets))]
+	ss, err := bb.getSchemaSet(target)
+	verifAssert(err == nil && ss != nil, "schema-set-found-or-created")
+	if err != nil || ss == nil {
+		return
+	}
+	ss["Marker"] = &schema_j5pb.RootSchema{}
+	wantPkg, wantSub := target, ""
+	if len(target) > 8 && target[len(target)-8:] == ".service" {
+		wantPkg, wantSub = target[:len(target)-8], "service"
+	}
+	found := 0
+	for _, p := range bb.packages {
+		if _, ok := p.Schemas["Marker"]; ok {
+			found++
+			verifAssert(p.Name == wantPkg && wantSub == "", "filed-under-the-package-of-that-name")
+		}
+		for _, sp := range p.SubPackages {
+			if _, ok := sp.Schemas["Marker"]; ok {
+				found++
+				verifAssert(p.Name == wantPkg && sp.Name == wantSub, "filed-under-the-sub-package-of-that-name")
+			}
+		}
+	}
+	verifAssert(found == 1, "filed-exactly-once")
 }
